@@ -229,6 +229,12 @@ func (fv *FuncVC) applyContract(con *Contract, callee *ssa.Function, c *ssa.Call
 		fv.oblige("call-pre", fmt.Sprintf("%s#%d#%s", key, ord, label), props, t.T, r.Src, fv.posStr(pos))
 		fv.assume(t.T)
 	}
+	if fv.inGo && con.Thread {
+		// detached thread: started once its precondition holds; what it does afterwards is concurrent
+		// interference (A-SEQ) and is verified against the thread's own contract, not applied here
+		fv.note("go statement: detached thread " + key + " (precondition checked at spawn)")
+		return &Val{Typ: resT}
+	}
 	// effects
 	fv.applyModifies(con, callee, env, args)
 	// results
@@ -377,8 +383,9 @@ func (fv *FuncVC) resolveModifies(con *Contract, env *Env) []modTarget {
 					if t := g.resolveType(id.Name); t != nil {
 						if st, ok := t.Underlying().(*types.Struct); ok {
 							if idx, _ := findField(st, n.Sel.Name); idx >= 0 {
-								hn, hs := g.fieldHeap(t, idx)
-								add(hn, hs, "")
+								for _, lf := range g.fieldLeaves(t, idx) {
+									add(lf.name, lf.sort, "")
+								}
 								continue
 							}
 						}
@@ -404,18 +411,31 @@ func (fv *FuncVC) resolveModifies(con *Contract, env *Env) []modTarget {
 				fv.unsupp("modifies: no field %q", d)
 				continue
 			}
-			hn, hs := g.fieldHeap(pt.Elem(), path[0])
-			add(hn, hs, base.T)
+			if len(path) > 1 {
+				// promoted field of an embedded struct: the leaf heaps below the embedded field
+				pl := fv.placeFromPointer(base)
+				for _, i := range path {
+					pl = fv.fieldPlace(pl, i)
+				}
+				if pl.Kind == PHeap && pl.Heap != "" {
+					for _, lf := range g.leavesOf(pl.Heap, pl.Typ) {
+						add(lf.name, lf.sort, base.T)
+					}
+					continue
+				}
+			}
+			for _, lf := range g.fieldLeaves(pt.Elem(), path[0]) {
+				add(lf.name, lf.sort, base.T)
+			}
 		case *ast.StarExpr:
 			base := env.tr(n.X)
 			if base.Typ == nil {
 				continue
 			}
 			et := deref(base.Typ)
-			if st, ok := et.Underlying().(*types.Struct); ok {
-				for i := 0; i < st.NumFields(); i++ {
-					hn, hs := g.fieldHeap(et, i)
-					add(hn, hs, base.T)
+			if _, ok := et.Underlying().(*types.Struct); ok {
+				for _, lf := range g.structLeaves(et) {
+					add(lf.name, lf.sort, base.T)
 				}
 			} else {
 				hn, hs := g.cellHeap(et)
@@ -454,22 +474,16 @@ func (fv *FuncVC) resolveModifies(con *Contract, env *Env) []modTarget {
 				// fields(T): all field heaps of struct type T ; fields(expr): all fields at location
 				if t := g.resolveType(exprText(n.Args[0])); t != nil {
 					if _, isVar := env.vars[exprText(n.Args[0])]; !isVar {
-						if st, ok := t.Underlying().(*types.Struct); ok {
-							for i := 0; i < st.NumFields(); i++ {
-								hn, hs := g.fieldHeap(t, i)
-								add(hn, hs, "")
-							}
+						for _, lf := range g.structLeaves(t) {
+							add(lf.name, lf.sort, "")
 						}
 						continue
 					}
 				}
 				v := env.tr(n.Args[0])
 				et := deref(v.Typ)
-				if st, ok := et.Underlying().(*types.Struct); ok {
-					for i := 0; i < st.NumFields(); i++ {
-						hn, hs := g.fieldHeap(et, i)
-						add(hn, hs, v.T)
-					}
+				for _, lf := range g.structLeaves(et) {
+					add(lf.name, lf.sort, v.T)
 				}
 			case "cells":
 				if t := g.resolveType(exprText(n.Args[0])); t != nil {
